@@ -24,6 +24,10 @@ import (
 // rule that only passes a nilable symbol on, a field left out of a literal in an action that never assigns that field
 // afterwards, a field given as the identifier nil.
 func c17NilChildren(p *Program, r *Report, g *LALR, m *NodeModel, walkers map[*ssa.Function]*walker, sw []*walker) {
+	sp := p.SSAPkg("ast/astutil")
+	if sp == nil {
+		return
+	}
 	info := g.Info
 	isYYVAL := func(e ast.Expr) (string, bool) { // yyVAL.F
 		sel, ok := e.(*ast.SelectorExpr)
@@ -255,51 +259,129 @@ func c17NilChildren(p *Program, r *Report, g *LALR, m *NodeModel, walkers map[*s
 	}
 	sort.Slice(keys, func(i, j int) bool { return keys[i].kind+"."+keys[i].field < keys[j].kind+"."+keys[j].field })
 	r.Note("C17.R6 fields the parser can leave nil", len(keys))
-	for _, w := range sw {
-		for _, b := range w.fn.Blocks {
+	// paramSafe: inside helper g, every walk of parameter j is nil-safe (the walk function answers nil for nil, or the call
+	// stands under a non-nil test of the parameter)
+	var paramSafe func(g *ssa.Function, j int, depth int) (bool, string)
+	paramSafe = func(g *ssa.Function, j int, depth int) (bool, string) {
+		if depth > 3 || j >= len(g.Params) {
+			return false, "helper too deep"
+		}
+		prm := g.Params[j]
+		for _, b := range g.Blocks {
+			for _, in := range b.Instrs {
+				c, ok := in.(*ssa.Call)
+				if !ok || staticCallee(c) == nil {
+					continue
+				}
+				callee := staticCallee(c)
+				for i, a := range c.Call.Args {
+					if a != ssa.Value(prm) || callee.Pkg != g.Pkg {
+						continue
+					}
+					if cat, sl := m.catOf(callee.Params[i].Type()); cat == "" || sl {
+						continue
+					}
+					okHere := false
+					if i == 0 && walkers[callee] != nil && !multiChildHelper(m, callee) {
+						okHere = tolerant[callee]
+					} else {
+						okHere, _ = paramSafe(callee, i, depth+1)
+					}
+					if !okHere && !valueNilGuarded(c, prm) {
+						return false, funcName(callee) + " (called in " + funcName(g) + ") does not answer nil for a nil node"
+					}
+				}
+			}
+		}
+		return true, ""
+	}
+	for _, fn := range SrcFuncs(sp) {
+		for _, b := range fn.Blocks {
 			for _, in := range b.Instrs {
 				c, ok := in.(*ssa.Call)
 				if !ok || staticCallee(c) == nil || len(c.Call.Args) == 0 {
 					continue
 				}
 				callee := staticCallee(c)
-				if callee.Pkg != w.fn.Pkg {
+				if callee.Pkg != fn.Pkg {
 					continue
 				}
-				if cat, sl := m.catOf(callee.Params[0].Type()); cat == "" || sl {
-					continue
+				for i, a := range c.Call.Args {
+					if i >= len(callee.Params) {
+						continue
+					}
+					if cat, sl := m.catOf(callee.Params[i].Type()); cat == "" || sl {
+						continue
+					}
+					base, fidx, ok := fieldLoad(a)
+					if !ok {
+						continue
+					}
+					kind := m.nodeKind(base.Type())
+					if kind == "" {
+						continue
+					}
+					st, ok := derefType(base.Type()).Underlying().(*types.Struct)
+					if !ok || fidx >= st.NumFields() {
+						continue
+					}
+					fname := st.Field(fidx).Name()
+					why, isNilable := nilable[kf{kind, fname}]
+					if !isNilable {
+						continue
+					}
+					n++
+					inst := fmt.Sprintf("%s|%s.%s walked nil-safely", funcName(fn), kind, fname)
+					okHere, by, bad := false, "", ""
+					if i == 0 && walkers[callee] != nil && !multiChildHelper(m, callee) {
+						okHere = tolerant[callee]
+						by = funcName(callee) + " answers nil for a nil node before it looks at it"
+						bad = funcName(callee) + " does not answer nil for a nil node"
+					} else {
+						okHere, bad = paramSafe(callee, i, 0)
+						by = "the helper " + funcName(callee) + " walks the child nil-safely"
+					}
+					if !okHere && fieldNilGuarded(c, base, fidx) {
+						okHere = true
+						by = "the call stands under a test that the field is not nil"
+					}
+					r.Check(okHere, "C17.R6", inst, p.Pos(c.Pos()), by,
+						"the parser can leave "+kind+"."+fname+" nil ("+why+") and "+bad+": the walk of such a program fails with an error the callback never returned")
 				}
-				base, fidx, ok := fieldLoad(c.Call.Args[0])
-				if !ok {
-					continue
-				}
-				kind := m.nodeKind(base.Type())
-				if kind == "" {
-					continue
-				}
-				st, ok := derefType(base.Type()).Underlying().(*types.Struct)
-				if !ok || fidx >= st.NumFields() {
-					continue
-				}
-				fname := st.Field(fidx).Name()
-				why, isNilable := nilable[kf{kind, fname}]
-				if !isNilable {
-					continue
-				}
-				n++
-				inst := fmt.Sprintf("%s|%s.%s walked nil-safely", funcName(w.fn), kind, fname)
-				okHere := tolerant[callee]
-				by := funcName(callee) + " answers nil for a nil node before it looks at it"
-				if !okHere && fieldNilGuarded(c, base, fidx) {
-					okHere = true
-					by = "the call stands under a test that the field is not nil"
-				}
-				r.Check(okHere, "C17.R6", inst, p.Pos(c.Pos()), by,
-					"the parser can leave "+kind+"."+fname+" nil ("+why+") and "+funcName(callee)+" does not answer nil for a nil node: the walk of such a program fails with an error the callback never returned")
 			}
 		}
 	}
 	r.Floor("C17.R6", n, 20)
+}
+
+// valueNilGuarded: the call is dominated by the non-nil edge of a test of v itself.
+func valueNilGuarded(c *ssa.Call, v ssa.Value) bool {
+	if v.Referrers() == nil {
+		return false
+	}
+	for _, ref := range *v.Referrers() {
+		bo, ok := ref.(*ssa.BinOp)
+		if !ok || bo.X != v || !isNilConst(bo.Y) {
+			continue
+		}
+		for _, r2 := range *bo.Referrers() {
+			iff, ok := r2.(*ssa.If)
+			if !ok {
+				continue
+			}
+			side := -1
+			switch bo.Op {
+			case token.NEQ:
+				side = 0
+			case token.EQL:
+				side = 1
+			}
+			if side >= 0 && edgeOnly(iff.Block(), side, c.Block()) {
+				return true
+			}
+		}
+	}
+	return false
 }
 
 // actionBody: the statements of a grammar action as written (goyacc puts `yyDollar = yyS[...]` in front and braces around).
